@@ -183,9 +183,17 @@ func c08Secret(t *rapid.T) ([]byte, string) {
 	return gen.Bytes32(t, "secret")
 }
 
+// c08Stretch turns the 32-byte secret into an n-byte one with the same shape (leading 00/FF runs stay leading runs).
+func c08Stretch(secret []byte, n int) []byte {
+	if n <= 32 {
+		return append([]byte(nil), secret[:n]...)
+	}
+	return append(append([]byte(nil), secret[:n-32]...), secret...)
+}
+
 func TestVerif_C08_Primitives(t *testing.T) {
 	rec := stats.Get("C08", "primitives")
-	rec.Rule("instrumented build (ctinstr: block, short-circuit and index events in utils, sm2, sm2/internal, fiat). rapid draws a primitive and a 32-byte secret from {uniform; 0,1,n-2..n+1, p, 2^255, 2^256-1; 1..31 leading 00 bytes; 1..31 leading FF bytes; bit runs; one bit; extreme bytes; exactly one comb window set}: P1 ScalarBaseMult(k); P2 ScalarMult(P,k) for fixed public P in {G,[m]G}; P3 field and scalar Invert(x); P4 MultiSelectXY/XYZ, fiat MultiSelect, Select (secret = selector); P5 TestPrivateKey(d), ConstantTimeCmp(a,b,32) (secret = both); P6 Bytes()/GetAffineX() of [k]G in a secret projective representative; P7 (1+d)^-1 as the signer computes it (scalar SetBytes + Invert). Oracle: executions are grouped by (primitive, public parameters, verdict); every execution's block-sequence hash+count, (site,index)-sequence hash+count and executed external-callee set must equal the group's first one; and the callee set of a primitive contains no math/big arithmetic, no bytes/strings call, no string/array comparison. On mismatch both secrets are re-run with full logs and the first diverging event is reported with file:line. Non-trivial: a secret that is not plain uniform compared against a different secret; distinct by (primitive, secret).")
+	rec.Rule("instrumented build (ctinstr: block, short-circuit and index events in utils, sm2, sm2/internal, fiat). rapid draws a primitive and a 32-byte secret from {uniform; 0,1,n-2..n+1, p, 2^255, 2^256-1; 1..31 leading 00 bytes; 1..31 leading FF bytes; bit runs; one bit; extreme bytes; exactly one comb window set}: P1 ScalarBaseMult(k); P2 ScalarMult(P,k) for fixed public P in {G,[m]G}, also with 16-, 33-, 40- and 64-byte scalars of the same shapes (length is public, value is not); P3 field and scalar Invert(x); P4 MultiSelectXY/XYZ, fiat MultiSelect, Select (secret = selector); P5 TestPrivateKey(d), ConstantTimeCmp(a,b,32) (secret = both); P6 Bytes()/GetAffineX() of [k]G in a secret projective representative; P7 (1+d)^-1 as the signer computes it (scalar SetBytes + Invert). Oracle: executions are grouped by (primitive, public parameters, verdict); every execution's block-sequence hash+count, (site,index)-sequence hash+count and executed external-callee set must equal the group's first one; and the callee set of a primitive contains no math/big arithmetic, no bytes/strings call, no string/array comparison. On mismatch both secrets are re-run with full logs and the first diverging event is reported with file:line. Non-trivial: a secret that is not plain uniform compared against a different secret; distinct by (primitive, secret).")
 	t.Cleanup(stats.FlushAll)
 	if !c08LoadSites(t) {
 		rec.Skipped("ctrace_sites.json not found: the instrumenter did not run; nothing judged")
@@ -217,6 +225,11 @@ func TestVerif_C08_Primitives(t *testing.T) {
 		{"P1:ScalarBaseMult", func(k []byte) string { internal.ScalarBaseMult(k); return "" }},
 		{"P2:ScalarMult(G)", func(k []byte) string { internal.ScalarMult(G, k); return "" }},
 		{"P2:ScalarMult([m]G)", func(k []byte) string { internal.ScalarMult(mG, k); return "" }},
+		// the variable-point routine accepts scalars of any length: the schedule may depend on the LENGTH (public), not on the value
+		{"P2:ScalarMult(G,33-byte-scalar)", func(k []byte) string { internal.ScalarMult(G, c08Stretch(k, 33)); return "" }},
+		{"P2:ScalarMult([m]G,40-byte-scalar)", func(k []byte) string { internal.ScalarMult(mG, c08Stretch(k, 40)); return "" }},
+		{"P2:ScalarMult(G,64-byte-scalar)", func(k []byte) string { internal.ScalarMult(G, c08Stretch(k, 64)); return "" }},
+		{"P2:ScalarMult([m]G,16-byte-scalar)", func(k []byte) string { internal.ScalarMult(mG, c08Stretch(k, 16)); return "" }},
 		{"P3:SM2Element.Invert", func(x []byte) string {
 			v := new(big.Int).SetBytes(x)
 			v.Mod(v, gen.P)
